@@ -7,6 +7,7 @@ import (
 	"fmt"
 	"os"
 	"path/filepath"
+	"regexp"
 	"sort"
 	"strings"
 
@@ -74,7 +75,68 @@ func Scan(root string) ([]*Module, error) {
 			mods = append(mods, m)
 		}
 	}
+	if err := checkViews(mods); err != nil {
+		return nil, err
+	}
 	return mods, nil
+}
+
+var tagRe = regexp.MustCompile(`^(requires|ensures)\s*(\[[^\]]*\])?\s*`)
+
+func normClause(t string) string {
+	t = tagRe.ReplaceAllString(strings.TrimSpace(t), "")
+	return strings.Join(strings.Fields(t), " ")
+}
+
+// checkViews: a contract declared `view <module>` is assumed where it is declared, but it must be a weaker view of the
+// contract that is verified in the named module of the same package: no precondition dropped, no postcondition added.
+func checkViews(mods []*Module) error {
+	byName := map[string]*Module{}
+	for _, m := range mods {
+		byName[m.Name] = m
+	}
+	for _, m := range mods {
+		for key, fs := range m.Spec.Funcs {
+			if fs.ViewOf == "" {
+				continue
+			}
+			om := byName[m.PkgName+"."+fs.ViewOf]
+			if om == nil {
+				return fmt.Errorf("%s: %s is declared a view of unknown module %s", m.Name, key, fs.ViewOf)
+			}
+			orig := om.Spec.Funcs[key]
+			if orig == nil || orig.Trusted {
+				return fmt.Errorf("%s: %s is declared a view of %s, which has no verified contract for it", m.Name, key, om.Name)
+			}
+			have := map[string]map[string]bool{"requires": {}, "ensures": {}}
+			for _, c := range orig.Clauses {
+				if have[c.Kind] != nil {
+					have[c.Kind][normClause(c.Text)] = true
+				}
+			}
+			mine := map[string]bool{}
+			for _, c := range fs.Clauses {
+				n := normClause(c.Text)
+				switch c.Kind {
+				case "requires":
+					mine[n] = true
+				case "ensures":
+					if n != "true" && !have["ensures"][n] {
+						return fmt.Errorf("%s: view of %s.%s claims `%s`, which is not a clause of the verified contract", m.Name, om.Name, key, n)
+					}
+				}
+			}
+			for r := range have["requires"] {
+				if !mine[r] {
+					return fmt.Errorf("%s: view of %s.%s drops the precondition `%s`", m.Name, om.Name, key, r)
+				}
+			}
+			if fs.Pure && !orig.Pure {
+				return fmt.Errorf("%s: view of %s.%s claims purity, the verified contract does not", m.Name, om.Name, key)
+			}
+		}
+	}
+	return nil
 }
 
 func contains(xs []string, x string) bool {
